@@ -62,3 +62,21 @@ VARIANTS += [
  V("c46-s1-split-at-last-equals", "C46", "C46.S1", "options.go",
    "		pos := strings.Index(line, \"=\")\n		if pos < 0 {", "		pos := strings.LastIndex(line, \"=\")\n		if pos < 0 {"),
 ]
+VARIANTS += [
+ V("c05-i1-setdeferred-keeps-stale-index", "C05", "C05.I1", "batch.go",
+   "	b.prepareDeferredKeyValueRecord(keyLen, valueLen, InternalKeyKindSet)\n	b.deferredOp.index = b.index\n", "	b.prepareDeferredKeyValueRecord(keyLen, valueLen, InternalKeyKindSet)\n"),
+ V("c05-i1-rangekey-index-not-assigned", "C05", "C05.I1", "batch.go",
+   "		b.deferredOp.index = b.rangeKeyIndex\n", ""),
+ V("c05-k2-apply-keeps-stale-rangekey-cache", "C05", "C04.K2", "batch.go",
+   "					b.rangeKeys = nil\n					b.rangeKeysSeqNum = 0\n					if b.rangeKeyIndex == nil {", "					if b.rangeKeyIndex == nil {"),
+]
+VARIANTS += [
+ V("c44-v1-handle-block-id-not-from-addvalue", "C44", "C44.V1", "valsep/value_separator.go",
+   "			BlockID: handle.BlockID,\n", "			BlockID: blob.BlockID(0),\n"),
+ V("c44-v1-reference-id-of-other-writer", "C44", "C44.V1", "valsep/value_separator.go",
+   "			ReferenceID: wnm.refID,\n", "			ReferenceID: base.BlobReferenceID(0),\n"),
+ V("c44-v1-preserved-length-recomputed", "C44", "C44.V1", "valsep/value_separator.go",
+   "			ValueLen:    lv.Fetcher.Attribute.ValueLen,\n		},\n		HandleSuffix: handleSuffix,", "			ValueLen:    uint32(len(lv.ValueOrHandle)),\n		},\n		HandleSuffix: handleSuffix,"),
+ V("c44-k1-valblk-tag-before-read", "C44", "C27.K1", "sstable/valblk/reader.go",
+   "		vbh, err := f.getBlockHandle(vh.BlockNum)\n		if err != nil {\n			return nil, err\n		}", "		f.valueBlockNum = vh.BlockNum\n		vbh, err := f.getBlockHandle(vh.BlockNum)\n		if err != nil {\n			return nil, err\n		}"),
+]
